@@ -522,6 +522,8 @@ func init() {
 			{Name: "PATH-LASTCHUNK", What: "Read/ReadByte: lastChunk.Begin taken after the empty-block skip and before the first consume; lastChunk.End re-taken after the last consume on every returning path (incl. Blocked mode)", Floor: 2, Run: ruleLastChunk},
 			{Name: "PATH-SEEK", What: "Seek: lastChunk = {off,off} exactly on the success edge of the in-block seek; the sticky error is re-assigned on every path", Floor: 1, Run: rulePathSeek},
 			{Name: "PATH-NEXTBLOCK", What: "nextBlock reports a read-ahead result (data or error) only for the decompressor whose base matched the expected one", Floor: 1, Run: ruleNextBlock},
+			{Name: "GEN-BIND", What: "read-ahead generations: a result read for the latest instruction never looks stale (shared with C09: \"every call returns\")", Floor: 2, Run: ruleGenBind},
+			{Name: "SYNC-REDIRECT", What: "after nextBlock's synchronous fall-back the read-ahead goroutine is re-pointed on every path (shared with C09)", Floor: 1, Run: ruleSyncRedirect},
 			{Name: "CUR-BLOCK", What: "block.Read/ReadByte/seek/setBase keep offset (the source of LastChunk) in step with what was consumed", Floor: 4, Run: ruleCurBlock},
 			{Name: "STICKY-ERR", What: "Reader.Read/ReadByte return the recorded error at once and do not touch it – also io.EOF in Blocked mode: the end of the data is final until a Seek (added after fifth-round seed C02-f)", Floor: 2, Run: ruleReaderStickyErr},
 			{Name: "POOL-BARE", What: "wait() takes the block out of the decompressor on every path, failed reads included, and only bare decompressors go back to the pool: otherwise the reader and a decompressor share a block (shared with C01/C09; under C02 since fifth-round seed C02-e)", Floor: 4, Run: rulePoolBare},
